@@ -101,6 +101,11 @@ def unit(bits):
     b = c['PRIME'].bit_length()
     u.raw('proof fn lemma_bit_mask()\n    ensures %s_BIT_MASK as int == %d, // == 2^%d - 1, %d == bit length of the modulus\n            (%s_PRIME as int) <= %d, %d < 2 * (%s_PRIME as int),\n{\n    assert(%s_BIT_MASK as int == %d && (%s_PRIME as int) <= %d && %d < 2 * (%s_PRIME as int)) by (compute);\n}\n'
           % (P, (1 << b) - 1, b, b, P, (1 << b) - 1, (1 << b) - 1, P, P, (1 << b) - 1, P, (1 << b) - 1, (1 << b) - 1, P), 'bit-mask')
+    # the generator: G has order 2^NUM_ROOTS and ROOTS[MAX] is G squared (NUM_ROOTS - MAX) times
+    k = c['NUM_ROOTS'] - (nr - 1)
+    u.raw('pub open spec fn sq_iter(g: int, k: nat) -> int decreases k { if k == 0 { g } else { let h = sq_iter(g, (k - 1) as nat); (h * h) %% PP() } }\n'
+          'proof fn lemma_generator()\n    ensures sq_iter(val(%s_G as int), %d) == val(spec_root(%d)),   // G^(2^(NUM_ROOTS - %d)) == ROOTS[%d]\n{\n    assert(sq_iter(val(%s_G as int), %d) == val(spec_root(%d))) by (compute);\n}\n'
+          % (P, k, nr - 1, nr - 1, nr - 1, P, k, nr - 1), 'generator')
     common = [(r'\$elem\b', E, '*'), (r'\$fp::add\(', 'fp_add(', '*'), (r'\$fp::sub\(', 'fp_sub(', '*'), (r'\$fp::mul\(', 'fp_mul(', '*'),
               (r'\$fp::neg\(', 'fp_neg(', '*'), (r'\$fp::inv\(', 'fp_inv(', '*'), (r'\$fp::pow\(', 'fp_pow(', '*'),
               (r'\$fp::montgomery\(', 'fp_montgomery(', '*'), (r'\$fp::residue\(', 'fp_residue(', '*'),
